@@ -132,10 +132,14 @@ class CodeData(DataclassHideDefault):
         Iterates through all the code data which are included,
         by processing the arguments recursively.
         """
-        for block in self.blocks:
-            for instruction in block:
-                arg = instruction.arg
-                if isinstance(arg, Constant) and isinstance(arg.constant, CodeData):
+        # Each constant is yielded once, even if multiple instructions refer to it,
+        # and also if no instruction refers to it (the additional args).
+        seen: set[Constant] = set()
+        args = [instruction.arg for block in self.blocks for instruction in block]
+        for arg in (*args, *self._additional_args):
+            if isinstance(arg, Constant) and isinstance(arg.constant, CodeData):
+                if arg not in seen:
+                    seen.add(arg)
                     yield arg.constant
 
     def all_code_data(self) -> Iterator[CodeData]:
